@@ -1,10 +1,19 @@
-"""Minimal stand-in for sqlmodel (not installable offline): enough to load generated code."""
+"""Minimal stand-in for sqlmodel (not installable offline): enough to load generated code.
+Field mirrors sqlmodel.Field's calling convention (default / default_factory are both optional keywords)."""
 import pydantic.v1 as _p
+from pydantic.v1.fields import Undefined as _Undefined
+
+
 class SQLModel(_p.BaseModel):
     def __init_subclass__(cls, table=False, **kw):
         super().__init_subclass__(**kw)
         cls.__table_flag__ = table
-def Field(default=..., *, primary_key=False, foreign_key=None, **kw):
-    fi = _p.Field(default, **kw)
+
+
+def Field(default=_Undefined, *, default_factory=None, primary_key=False, foreign_key=None, **kw):
+    if default_factory is not None:
+        fi = _p.Field(default_factory=default_factory, **kw) if default is _Undefined else _p.Field(default, default_factory=default_factory, **kw)
+    else:
+        fi = _p.Field(default, **kw)
     fi.extra["primary_key"] = primary_key
     return fi
